@@ -16,19 +16,34 @@ def c12_violation(rows, nf, unaligned=False):
     """Returns a description of what fails for this bit matrix, or None."""
     import bblean
     import bblean.similarity as S
-    from suite_bits import misaligned
+    from suite_bits import misaligned, with_layout
     A = np.array(rows, dtype=np.uint8).reshape(len(rows), nf)
     X = bblean.pack_fingerprints(A)
-    if unaligned:
+    qrow = None
+    if unaligned is True:
         X = misaligned(X)
+    elif isinstance(unaligned, str):
+        X, qrow = with_layout(X, unaligned)
     if not (bblean.unpack_fingerprints(X, nf) == A).all():
         return "unpack(pack(x)) != x"
     n = len(rows)
+    if qrow is not None:
+        # array-vs-vector form with operands of different memory layouts
+        for j in range(n):
+            try:
+                sv = S._jt_sim_arr_vec_packed(X, qrow(X[j]))
+            except Exception as e:
+                return f"similarity of a {unaligned} matrix / row pair raised {type(e).__name__}: {str(e)[:80]}"
+            for i in range(n):
+                a, b = A[i].astype(bool), A[j].astype(bool)
+                inter, union = int((a & b).sum()), int((a | b).sum())
+                if union > 0 and float(sv[i]) != inter / union:
+                    return f"layout {unaligned}: sim(row {i}, row {j}) = {float(sv[i])!r} != {inter}/{union}"
     for i in range(n):
         for j in range(n):
             a, b = A[i].astype(bool), A[j].astype(bool)
             inter, union = int((a & b).sum()), int((a | b).sum())
-            v = float(S.jt_sim_packed(X[i], X[j]))
+            v = float(S.jt_sim_packed(X[i], X[j] if qrow is None else qrow(X[j])))
             if union > 0:
                 if v != inter / union:   # correctly rounded quotient of two small ints
                     return f"sim({i},{j})={v!r} != {inter}/{union}"
